@@ -387,4 +387,105 @@ Section StrProofs.
     rewrite forallb_app in H. apply andb_true_iff in H as [_ H]. cbn in H.
     rewrite andb_true_r in H. now apply good_comp_noslash.
   Qed.
+  (** ** extension: the suffix after the last '.', when something precedes it *)
+  Notation rfind_dot_from := (rfind_dot_from eqb dot).
+  Fixpoint has_dot (c : str) : bool :=
+    match c with [] => false | x :: c' => eqb x dot || has_dot c' end.
+
+  Lemma rfind_dot_from_app i a s acc :
+    rfind_dot_from i (a ++ s) acc = rfind_dot_from (i + length a) s (rfind_dot_from i a acc).
+  Proof.
+    revert i acc; induction a as [|x a IH]; intros i acc; cbn.
+    - now rewrite Nat.add_0_r.
+    - rewrite IH. f_equal. lia.
+  Qed.
+  Lemma rfind_dot_from_nodot i b acc : has_dot b = false -> rfind_dot_from i b acc = acc.
+  Proof.
+    revert i acc; induction b as [|x b IH]; intros i acc H; cbn in *; [reflexivity|].
+    apply orb_false_elim in H as [Hx Hb]. rewrite Hx. now apply IH.
+  Qed.
+
+  Lemma extension_nodot cs n :
+    has_slash n = false -> has_dot n = false ->
+    extension_internal (render (cs ++ [n])) = None.
+  Proof.
+    intros Hs Hd. unfold Str.extension_internal. rewrite (filename_render_snoc cs n Hs).
+    now rewrite rfind_dot_from_nodot.
+  Qed.
+
+  Lemma extension_lastdot cs (n b e : str) :
+    n = b ++ dot :: e -> has_slash n = false -> has_dot e = false ->
+    extension_internal (render (cs ++ [n])) =
+    match b with [] => None | _ => Some e end.
+  Proof.
+    intros Hn Hs Hd. unfold Str.extension_internal. rewrite (filename_render_snoc cs n Hs). subst n.
+    rewrite rfind_dot_from_app. cbn. rewrite eqb_refl, (rfind_dot_from_nodot _ e _ Hd).
+    rewrite firstn_app, Nat.sub_diag, firstn_all. cbn. rewrite app_nil_r.
+    destruct b as [|x b]; [reflexivity|].
+    f_equal. cbn [app length].
+    change (skipn (S (length b)) (b ++ dot :: e) = e).
+    replace (S (length b)) with (length (b ++ [dot])) by (rewrite app_length; cbn; lia).
+    change (dot :: e) with ([dot] ++ e). rewrite app_assoc, skipn_app, skipn_all, Nat.sub_diag.
+    reflexivity.
+  Qed.
+
+  (** ** the relative-join bridge used by AltrootFS::path and OverlayFS: joining the
+      string of a canonical path without its leading '/' appends its components *)
+  Lemma resolve_render_tail bs cs :
+    forallb good_comp cs = true -> cs <> [] ->
+    resolve bs (tl (render cs)) = bs ++ cs.
+  Proof.
+    intros Hcs Hne. destruct cs as [|c cs]; [congruence|].
+    change (render (c :: cs)) with (slash :: c ++ render cs). cbn [tl].
+    assert (Hall := good_all_noslash _ Hcs). inversion Hall as [|? ? Hc Hrest]; subst.
+    unfold Str.resolve.
+    assert (Hst : Str.starts_with_slash eqb slash (c ++ render cs) = false).
+    { cbn in Hcs. apply andb_true_iff in Hcs as [Hg _].
+      destruct c as [|x c]; [discriminate|]. cbn in *. now apply orb_false_elim in Hc as [-> _]. }
+    rewrite Hst.
+    assert (Hsplit : split (c ++ render cs) = c :: cs).
+    { destruct cs as [|c' cs'].
+      - cbn. rewrite app_nil_r. now apply split_noslash.
+      - change (render (c' :: cs')) with (slash :: c' ++ render cs').
+        rewrite (split_app_slash c _ Hc). f_equal.
+        pose proof (split_render (c' :: cs') Hrest) as E.
+        change (render (c' :: cs')) with (slash :: c' ++ render cs') in E.
+        cbn [Str.split] in E. rewrite eqb_refl in E. now inversion E. }
+    rewrite Hsplit.
+    clear Hsplit Hst Hall Hc Hrest Hne. revert bs.
+    generalize (c :: cs) Hcs. clear c cs Hcs.
+    intros l; induction l as [|x l IH]; intros Hl bs; cbn [fold_left].
+    - now rewrite app_nil_r.
+    - cbn in Hl. apply andb_true_iff in Hl as [Hx Hl].
+      rewrite (IH Hl). unfold Str.resolve_step.
+      unfold Str.good_comp in Hx.
+      repeat (apply andb_true_iff in Hx as [Hx ?]).
+      repeat match goal with H : negb _ = true |- _ => apply negb_true_iff in H; rewrite H end.
+      destruct x as [|x0 x]; [discriminate|]. cbn. now rewrite <- app_assoc.
+  Qed.
+
+  Lemma join_relative bs cs :
+    forallb good_comp bs = true -> forallb good_comp cs = true -> cs <> [] ->
+    join_internal (render bs) (tl (render cs)) = Some (render (bs ++ cs)).
+  Proof.
+    intros Hbs Hcs Hne.
+    destruct (join_internal (render bs) (tl (render cs))) as [r|] eqn:E.
+    - destruct (join_resolve bs _ r Hbs E) as [-> _]. now rewrite resolve_render_tail.
+    - exfalso. apply join_reject_iff in E as [_ [a Ha]].
+      (* a canonical string never ends in '/' *)
+      destruct cs as [|c0 cs0] using rev_ind; [congruence|].
+      rewrite render_snoc in Ha.
+      rewrite forallb_app in Hcs. apply andb_true_iff in Hcs as [_ Hc]. cbn in Hc.
+      rewrite andb_true_r in Hc.
+      assert (Hne0 : c0 <> []) by (intros ->; discriminate).
+      pose proof (good_comp_noslash _ Hc) as Hns.
+      destruct c0 as [|x c0] using rev_ind; [congruence|].
+      assert (Hlast : last (tl (render cs0 ++ slash :: c0 ++ [x])) slash = x).
+      { destruct (render cs0) as [|y r0]; cbn [tl app].
+        - now rewrite last_last.
+        - rewrite app_comm_cons, app_assoc. now rewrite last_last. }
+      rewrite Ha, last_last in Hlast. subst x.
+      rewrite has_slash_app in Hns. cbn in Hns. rewrite eqb_refl in Hns.
+      now rewrite orb_true_r in Hns.
+  Qed.
 End StrProofs.
